@@ -23,8 +23,9 @@ class Module(object):
             self.tree = ast.parse(self.text, filename=path)
         except SyntaxError as e:
             raise AnalysisError("cannot parse %s: %s" % (rel, e))
+        from . import pynorm
+        pynorm.lower_ifexp(self.tree)
         if rename:
-            from . import pynorm
             pynorm.apply(self.tree, rename)
         self.lines = self.text.splitlines()
         self.parents = {}
